@@ -15,6 +15,10 @@ def run(tier):
         o = os.path.join(wd, "out.json")
         conform("stable", ["pwstr", tf, o, ck.seed + s, (2 if tier == "thorough" else 1) if s == 0 else 0], timeout=3000)
         ck.add_report(json.load(open(o)))
+    # nightly build: the same table with heap and locked containers added
+    o = os.path.join(wd, "out_nightly.json")
+    conform("nightly", ["pwstr", tf, o, ck.seed, 0], timeout=3000)
+    ck.add_report(json.load(open(o)), prefix="[nightly] ")
     if not ck.cov["distinct_nontrivial"]:
         ck.cov["distinct_nontrivial"] = len(table["valid"]) + len(table["rehash"])
     ck.cov["rule"] = ("objects = algorithm x t x m x salt length {8,15,16,17,64} x hash length {16,31,32,33,128} of PwStr.tla (%d), each hashed, encoded as the spec prescribes, "
